@@ -395,6 +395,11 @@ def _o_ladder(w):
         R = _LADDERS[w["name"]](ec, w["w"], w["m"], Q)
     except Exception as e:  # noqa: BLE001
         refused_ok = common.err_class(e) == "value" and (w["m"] < 0 or w["w"] <= 0)
+        if w["name"] == "fwpos" and isinstance(e, IndexError) and w["w"] > 0 and w["m"] >= 0:
+            # documented precondition of the private _mult_fixed_window_cached_var: m reduced (one table per
+            # digit position of a p_size-byte scalar); a longer scalar has no table — the model says the same
+            ndig = max(1, -(-w["m"].bit_length() // w["w"]))
+            refused_ok = ndig > (ec.p_size * 8) // w["w"] + 1
         if w["name"] == "fb" and w["w"] > 0 and common.err_class(e) == "value":
             # documented precondition of _mult_fixed_base: m below 2^(w * positions), positions = ceil(scalar_len / w)
             refused_ok = refused_ok or (w["m"] | 1) >> (w["w"] * -(-ec.scalar_len // w["w"])) != 0
